@@ -142,16 +142,25 @@ def check_qr(A4, tol=1e-10):
     sc = max(1.0, rt.fro(A4))
     if Q4.shape[:2] != (m, k) or R4.shape[:2] != (k, n):
         return {"what": "shapes", "Q": Q4.shape, "R": R4.shape}, facts
+    fails = []
     for i in range(k):
         for j in range(n):
-            if i > j and np.linalg.norm(R4[i, j]) > tol * sc:
-                return {"what": "R not upper triangular / trapezoidal", "i": i, "j": j, "value": R4[i, j]}, facts
+            if i > j and not (np.linalg.norm(R4[i, j]) <= tol * sc):
+                fails.append({"what": "R not upper triangular / trapezoidal", "i": i, "j": j, "value": R4[i, j]})
+                break
+        if fails:
+            break
     e_orth = rt.fro(rt.qmm(rt.qH(Q4), Q4) - rt.eye4(k))
-    if e_orth > tol:
-        return {"what": "Q columns not orthonormal", "err": e_orth}, facts
+    if not (e_orth <= tol):
+        fails.append({"what": "Q columns not orthonormal", "err": e_orth})
     e_rec = rt.fro(rt.qmm(Q4, R4) - A4)
-    if e_rec > tol * sc:
-        return {"what": "A != Q R", "err": e_rec}, facts
+    if not (e_rec <= tol * sc):
+        fails.append({"what": "A != Q R", "err": e_rec})
+    facts["failures"] = [f["what"] for f in fails]
+    if fails:
+        out = dict(fails[0])
+        out["all_failures"] = facts["failures"]
+        return out, facts
     return None, facts
 
 
@@ -214,6 +223,55 @@ def bounded(rep: Report, tier, seed):
                     b.case(f"{P}.bounded.qr", (m, n, r, kind), (lambda res=res: res), f"qr_qua on {m}x{n} rank {r} ({kind})", facts=facts, inputs={"A": A4})
     b.samples.append({"shape": [2, 4], "rank": 2, "kind": "gauss", "class": "wide"})
     b.done()
+    # structured full-rank inputs: columns already in triangular form (exact zeros below a non-real pivot), triangular and
+    # diagonal matrices with quaternion diagonals, unit-quaternion multiples of the identity, one non-real entry
+    b2 = rep.add_bounded(Bounded("structured_full_rank", f"shapes <= {mx}x{mx}: first k columns already triangular (k = 1..n) with non-real pivots, upper triangular, diagonal / identity times unit quaternions, real matrices with one imaginary entry, exact-integer entries",
+                                 "same contract; all inputs have full rank min(m, n)"))
+    def unitq():
+        q = rng.standard_normal(4)
+        return q / np.linalg.norm(q)
+    for m in range(1, mx + 1):
+        for n in range(1, mx + 1):
+            k = min(m, n)
+            cases = {}
+            for kt in range(1, k + 1):
+                A4 = rng.standard_normal((m, n, 4))
+                for j in range(kt):
+                    A4[j + 1:, j, :] = 0.0
+                cases[f"tri_first_{kt}"] = A4
+                Ai = np.rint(3 * A4)
+                for j in range(k):
+                    if not Ai[j, j].any():
+                        Ai[j, j, 1] = 2.0
+                cases[f"tri_first_{kt}_int"] = Ai
+            D = np.zeros((m, n, 4))
+            for j in range(k):
+                D[j, j] = unitq() * (j + 1.0)
+            cases["diag_quat"] = D
+            E = np.zeros((m, n, 4))
+            q = unitq()
+            for j in range(k):
+                E[j, j] = q
+            cases["identity_times_unit"] = E
+            for name, basis in (("identity_times_i", 1), ("identity_times_j", 2), ("identity_times_k", 3), ("minus_identity", 0)):
+                E2 = np.zeros((m, n, 4))
+                for j in range(k):
+                    E2[j, j, basis] = -1.0 if basis == 0 else 1.0
+                cases[name] = E2
+            Rl = rng.standard_normal((m, n, 4))
+            Rl[..., 1:] = 0.0
+            Rl[0, 0, 2] = 1.5
+            cases["real_plus_one_imag"] = Rl
+            for name, A4 in cases.items():
+                if tier == "quick" and name.endswith("_int") and (m + n) % 2:
+                    continue
+                try:
+                    res, facts = check_qr(A4)
+                except Exception as e:
+                    res, facts = {"exception": f"{type(e).__name__}: {e}"}, {"m": m, "n": n}
+                b2.case(f"{P}.bounded.qr_structured", (m, n, name), (lambda res=res: res), f"qr_qua on a {m}x{n} {name} matrix", facts=facts, inputs={"A": A4})
+    b2.samples.append({"shape": [3, 3], "kind": "tri_first_1", "A[0,0]": "non-real quaternion, A[1:,0] = 0"})
+    b2.done()
 
 
 def run(tier, seed):
